@@ -3,7 +3,7 @@ import Tahoe.Mutable.Authentic
 import Tahoe.Mutable.RetrieveSelect
 /-! Driver for C10: `fd <cold|warm> <field>` → `accept` | `reject`: the reader's decision on a single
 share in which exactly the named field was altered (field names as in `Tahoe.Authentic.Field`).
-`rt <seed family|-> ev…` with ev = o:<shnum>:<fam> | d:<shnum>:<fam>:<id> | x:<shnum> → `<a|r per event> | <root>`:
+`rt <seed family|-> ev…` with ev = o:<shnum>:<fam> | d:<shnum>:<fam>:<id> | t:<shnum>:<fam> | x:<shnum> → `<a|r per event> | <root>`:
 one Retrieve's share hash tree (seeded with the root of the given family, or unseeded) fed a sequence
 of shares; root = fam:<f> | junk | none.
 Shares of a servermap: <shnum>:<server>:<seq>:<root>:<pre>:<offs>:<g|b> (sorted by share number).
@@ -26,6 +26,7 @@ def parseEv (t : String) : Option Toy.Ev :=
   | ["o", i, f] => do pure (.offer (← i.toNat?) (← f.toNat?))
   | ["d", i, f, id] => do pure (.damaged (← i.toNat?) (← f.toNat?) (← id.toNat?))
   | ["x", i] => do pure (.fail (← i.toNat?))
+  | ["t", i, f] => do pure (.truncated (← i.toNat?) (← f.toNat?))   -- consistent share whose chain stops below the root
   | _ => none
 
 def showRoot : Option Toy.TH → String
